@@ -97,6 +97,10 @@ BOUNDED_SEARCH = {
              'closeness_centrality (both wf_improved settings) against the documented formula over Floyd-Warshall distances TO each node')],
     'C15': [('C15.rebuilds_do_not_fail_and_match_their_definitions_bounded', 'derived_oracle', 'src/graph/convert.rs',
              'reverse (and reverse twice), get_subgraph for every subset of the names, set_all_edge_weights, to_single_edges against edge multisets computed from the added edge list')],
+    'C16': [('C16.generators_match_their_definitions_bounded', 'generators_oracle', 'src/generators/classic.rs',
+             'complete_graph(n, directed) for n <= 7 (exactly the nodes 0..n-1, exactly one edge per pair of distinct nodes); fast_gnp_random_graph for n in {1, 2, 5, 12}, '
+             'p in {0.05, 0.5, 0.95}, seeds 0..199 (nodes 0..n-1, no self-loop, no repeated pair, mean number of edges within p*pairs/(n-1) + 5 standard errors), '
+             'InvalidArgument for p outside (0, 1); karate_club_graph has 34 nodes and 78 edges')],
     'C09': [('C09.degrees_agree_with_the_edge_list_bounded', 'counts_oracle', 'src/graph/degree.rs',
              'node / edge counts, size(false), per-node degrees and the degree map against counts over the added edge list (handshake identities follow)')],
 }
@@ -110,7 +114,7 @@ def bounded_search(prop, tier, work):
     for oid, group, where, what in BOUNDED_SEARCH[prop]:
         w, cmd = replay._run_group(group, work)
         tried = getattr(replay._run_group, 'last_tried', None)
-        bound = 'bounded: all graphs with <= 4 nodes (8 kinds, <= 5 edges for n <= 3, <= 3 edges for n = 4, unweighted, weights 1.0 / 0.0 / 2.5 / f64::MAX where the oracle allows them, strictly positive weights 1.0 / 2.5 / 3.5 in three arrangements and weights below 1.0), %s' % what
+        bound = ('bounded: %s' % what) if group == 'generators_oracle' else 'bounded: all graphs with <= 4 nodes (8 kinds, <= 5 edges for n <= 3, <= 3 edges for n = 4, unweighted, weights 1.0 / 0.0 / 2.5 / f64::MAX where the oracle allows them, strictly positive weights 1.0 / 2.5 / 3.5 in three arrangements and weights below 1.0), %s' % what
         if w:
             out.append({'id': oid, 'harness': 'verif_search:' + group, 'strength': 'bounded', 'where': where, 'status': 'failed',
                         'detail': '%s; witness: %s' % (bound, str(w)[:400]),
